@@ -85,7 +85,10 @@ def run_objective_case(ctx, d):
     snapshots = [list(v) for v in heap0]
     prog = d["prog"]
 
-    def execute(objs_):
+    class Impure(Exception):
+        pass
+
+    def execute(objs_, check=True):
         for st in prog:
             if st[0] == "add":
                 objs_.append(objs_[st[1]] + objs_[st[2]])
@@ -94,10 +97,28 @@ def run_objective_case(ctx, d):
             else:
                 c = float(fr_str(st[2]))
                 objs_.append(objs_[st[1]] * c if st[3] else c * objs_[st[1]])
-            snapshots.append(obj_value(objs_[-1]))
+            if check:
+                # stop at the first operand modified in place (aliasing can make objects grow without bound)
+                for i_ in range(len(objs_) - 1):
+                    if obj_value(objs_[i_]) != snapshots[i_]:
+                        raise Impure(i_)
+                snapshots.append(obj_value(objs_[-1]))
+            if len(objs_[-1].multipliers) > 4096:
+                raise Impure(len(objs_) - 1)
         return objs_
 
-    ok, _ = ctx.impl_call(d, lambda: execute(objs))
+    ok = True
+    try:
+        execute(objs)
+    except Impure as e:
+        i_ = e.args[0]
+        ctx.case(d, True)
+        ctx.check_prop("operators-pure", False, d, {"changed_object": i_, "at_creation": str(snapshots[i_])[:300],
+                                                    "now": str(obj_value(objs[i_]))[:300], "after_statement": len(objs) - len(kinds)})
+        return
+    except Exception as e:  # noqa: BLE001
+        ctx.check_prop("implementation-raises", False, d, {"exception": (type(e).__name__ + ": " + str(e))[:400]})
+        ok = False
     if not ok:
         ctx.case(d, False)
         return
@@ -123,7 +144,7 @@ def run_objective_case(ctx, d):
         ctx.corr_failures.append(("obj_heap_model", d, {"impl": str(final_vals[-3:]), "model": str(lean_vals[-3:])}))
     # building the same expression twice gives the same objective
     objs2 = objs[: len(kinds)]
-    ok, objs2 = ctx.impl_call(d, lambda: execute(list(objs2)))
+    ok, objs2 = ctx.impl_call(d, lambda: execute(list(objs2), check=False))
     if ok:
         ctx.check_prop("build-twice-same", obj_value(objs2[-1]) == snapshots[len(kinds) + len(prog) - 1], d,
                        {"first": str(snapshots[len(kinds) + len(prog) - 1]), "second": str(obj_value(objs2[-1]))})
